@@ -14,9 +14,11 @@ def sh(cmd, timeout=3600):
     return r.returncode, r.stdout, time.time() - t0
 
 readme = open(os.path.join(sd, "demo", "README.md")).read()
-m = re.search(r"cargo test ((?:--release )?(?:--offline )?(?:--release )?-p \S+(?: --features \S+)? --test \S+)", readme)
-sel = m.group(1).replace("--offline ", "")
-name = re.search(r"--test (\S+)", sel).group(1)
+line = next(l for l in readme.splitlines() if "cargo test" in l and "--test" in l)
+pk = re.search(r"-p (\S+)", line).group(1)
+name = re.search(r"--test (\S+)", line).group(1).rstrip("`")
+ft = re.search(r"--features (\S+)", line)
+sel = ("--release " if "--release" in line else "") + f"-p {pk} " + (f"--features {ft.group(1)} " if ft else "") + f"--test {name}"
 demo_files = [f for f in os.listdir(os.path.join(sd, "demo")) if f.endswith(".rs")]
 dst = None
 m2 = re.search(r"([\w/]+/tests)/" + re.escape(name) + r"\.rs", readme)
